@@ -191,6 +191,8 @@ pub struct Child {
     pub is_unit: bool,
     /// the future type has no destructor: its drop cannot be observed
     pub no_drop_glue: bool,
+    /// for_each_concurrent: the closure panics when it is called for this item
+    pub closure_panics: bool,
     /// index in World::live_ids while the child is held (accepted, not completed, not dropped)
     pub live_pos: u32,
 }
@@ -255,6 +257,8 @@ pub struct UpState {
     pub force: Option<UpForce>,
     pub ready_cost: bool,
     pub yields_in_a_row: u32,
+    /// for_each_concurrent: the closure panics for items handed out as `ItemAlt`
+    pub closure_panic_alt: bool,
     /// concurrency limit of the adapter under test (0 = none) and whether it is an ordered one:
     /// the limit oracles are evaluated at the very moment upstream hands out an item
     pub limit: usize,
@@ -420,6 +424,7 @@ impl World {
                 force: None,
                 ready_cost: true,
                 yields_in_a_row: 0,
+                closure_panic_alt: false,
                 limit: 0,
                 ordered: false,
                 modes: [Mode::Gate, Mode::Ready, Mode::Ready],
@@ -529,6 +534,7 @@ impl World {
             victim_wake_cpoll: None,
             is_unit: false,
             no_drop_glue: false,
+            closure_panics: false,
             live_pos: u32::MAX,
         });
         id
@@ -1252,7 +1258,8 @@ impl<O: Out> Drop for ScriptFut<O> {
             release_own_waker(id);
         }
         if boom {
-            std::panic::resume_unwind(Box::new(ChildPanic(id)));
+            // (the payload and the unwinder's exception object are the harness's allocations, not the crate's)
+            callback(|| std::panic::resume_unwind(Box::new(ChildPanic(id))));
         }
     }
 }
@@ -1282,18 +1289,20 @@ impl Stream for ScriptStream {
     type Item = Tok;
     fn poll_next(self: Pin<&mut Self>, cx: &mut Context<'_>) -> Poll<Option<Tok>> {
         let id = self.id;
-        let r = self.poll_next_inner(cx);
-        if let Poll::Ready(None) = r {
-            release_own_waker(id);
-        }
-        r
+        let addr = &*self as *const Self as usize;
+        stream_poll(id, addr, cx)
     }
 }
-impl ScriptStream {
-    fn poll_next_inner(self: Pin<&mut Self>, cx: &mut Context<'_>) -> Poll<Option<Tok>> {
+fn stream_poll(id: u32, addr: usize, cx: &mut Context<'_>) -> Poll<Option<Tok>> {
+    let r = stream_poll_inner(id, addr, cx);
+    if let Poll::Ready(None) = r {
+        release_own_waker(id);
+    }
+    r
+}
+fn stream_poll_inner(id: u32, addr: usize, cx: &mut Context<'_>) -> Poll<Option<Tok>> {
+    {
         callback(|| {
-            let id = self.id;
-            let addr = &*self as *const Self as usize;
             let data = cx.waker().data() as usize;
             let ok = w(|w| child_poll_begin(w, id, addr, data));
             if !ok {
@@ -1389,8 +1398,32 @@ impl ScriptStream {
 
 impl Drop for ScriptStream {
     fn drop(&mut self) {
+        stream_drop(self.id, self as *const Self as usize)
+    }
+}
+
+/// The same scripted source as an `Unpin` value: it lives directly in the collection's slot (a
+/// `ScriptStream` is `!Unpin` and has to be boxed for the unbounded merge), so that a collection
+/// which relocates its `Unpin` streams is seen doing so.
+pub struct UStream {
+    pub id: u32,
+}
+impl Stream for UStream {
+    type Item = Tok;
+    fn poll_next(self: Pin<&mut Self>, cx: &mut Context<'_>) -> Poll<Option<Tok>> {
         let id = self.id;
-        let addr = self as *const Self as usize;
+        let addr = &*self as *const Self as usize;
+        stream_poll(id, addr, cx)
+    }
+}
+impl Drop for UStream {
+    fn drop(&mut self) {
+        stream_drop(self.id, self as *const Self as usize)
+    }
+}
+
+fn stream_drop(id: u32, addr: usize) {
+    {
         let by_crate = inside_crate();
         let boom = callback(|| {
             w(|w| {
@@ -1409,7 +1442,8 @@ impl Drop for ScriptStream {
             release_own_waker(id);
         }
         if boom {
-            std::panic::resume_unwind(Box::new(ChildPanic(id)));
+            // (the payload and the unwinder's exception object are the harness's allocations, not the crate's)
+            callback(|| std::panic::resume_unwind(Box::new(ChildPanic(id))));
         }
     }
 }
@@ -1427,6 +1461,11 @@ pub trait UpItem: Sized + 'static {
     }
 }
 impl UpItem for ScriptFut<Tok> {
+    fn item(id: u32) -> Self {
+        ScriptFut::new(id)
+    }
+}
+impl UpItem for ScriptFut<()> {
     fn item(id: u32) -> Self {
         ScriptFut::new(id)
     }
@@ -1499,7 +1538,7 @@ impl<I: UpItem> Stream for Upstream<I> {
                             if w.up.yields_in_a_row < 2 {
                                 menu.push((UpAns::PendingWake, true));
                             }
-                            if w.up.modes[2] != w.up.modes[1] {
+                            if w.up.modes[2] != w.up.modes[1] || w.up.closure_panic_alt {
                                 menu.push((UpAns::ItemAlt, true));
                             }
                             if w.up.is_try {
@@ -1575,6 +1614,9 @@ impl<I: UpItem> Stream for Upstream<I> {
                         let id = w.new_child(mode);
                         w.children[id as usize].fail = matches!(ans, UpAns::ItemGateFail | UpAns::ItemReadyFail);
                         w.children[id as usize].up_pos = w.up.next_item; // position in upstream order
+                        if I::RAW && ans == UpAns::ItemAlt && w.up.closure_panic_alt {
+                            w.children[id as usize].closure_panics = true;
+                        }
                         w.up.remaining -= 1;
                         w.up.pulled += 1;
                         w.up.next_item += 1;
